@@ -230,6 +230,21 @@ func (g *Gen) eval(e Expr, env *Env) Val {
 		v := g.eval(x.X, env)
 		return g.sliceVal(v, x.Lo, x.Hi, env)
 	case *EUn:
+		if x.Op == "&" {
+			// address of a package-level variable
+			id, ok := x.X.(*EIdent)
+			if !ok || env.pkg == nil {
+				panic(contractErr("& is only supported on package-level variables: %s", e))
+			}
+			if _, isLocal := env.vars[id.Name]; isLocal {
+				panic(contractErr("& is only supported on package-level variables: %s", e))
+			}
+			o, isVar := env.pkg.Scope().Lookup(id.Name).(*types.Var)
+			if !isVar {
+				panic(contractErr("&%s: not a package-level variable", id.Name))
+			}
+			return sv(types.NewPointer(o.Type()), g.globalRef(o.Pkg().Path()+"."+o.Name()))
+		}
 		v := g.eval(x.X, env)
 		switch x.Op {
 		case "!":
